@@ -949,6 +949,9 @@ def _sibling_trees(path):
 _PURE_CALLS = {"len", "int", "str", "max", "min", "abs", "bool", "float", "round"}
 
 
+_LIB_SEEK = {"os.SEEK_SET": 0, "os.SEEK_CUR": 1, "os.SEEK_END": 2, "io.SEEK_SET": 0, "io.SEEK_CUR": 1, "io.SEEK_END": 2}
+
+
 class Evolve:
     """Normalisations for code that was extended after the pinned commit without touching the specified behaviour:
 
@@ -1456,6 +1459,24 @@ class Evolve:
                 if isinstance(x, ast.Name) and x.id.islower() and x.id not in allowed_names:
                     return False        # (upper-case names: constants of this or an imported module)
             return True
+        # library constants with a documented fixed value (`io.SEEK_END`), reached through a plain `import io` / `import os`
+        libmods = {a.asname or a.name for st in self.tree.body if isinstance(st, ast.Import) for a in st.names
+                   if a.name in ("io", "os") and (a.asname or a.name) == a.name}
+        libmods -= {x.id for x in ast.walk(self.tree) if isinstance(x, ast.Name) and isinstance(x.ctx, (ast.Store, ast.Del))}
+
+        class LibFold(ast.NodeTransformer):
+            def visit_Attribute(self_, n):
+                self_.generic_visit(n)
+                if isinstance(n.value, ast.Name) and n.value.id in libmods and isinstance(n.ctx, ast.Load) \
+                        and "%s.%s" % (n.value.id, n.attr) in _LIB_SEEK:
+                    return ast.copy_location(ast.Constant(_LIB_SEEK["%s.%s" % (n.value.id, n.attr)]), n)
+                return n
+        if libmods:
+            for holder in [self.tree] + [x for x in self.tree.body if isinstance(x, ast.ClassDef)]:
+                for st in holder.body:
+                    if isinstance(st, ast.Assign) and len(st.targets) == 1 and isinstance(st.targets[0], ast.Name) \
+                            and st.targets[0].id.isupper():
+                        st.value = LibFold().visit(st.value)
         # module level
         mod_new = {}
         for st in self.tree.body:
